@@ -192,6 +192,7 @@ def run(tier: str) -> int:
                 compare_traces(rep, pub, ra, rb, "same-object", detail, has_sweep)
         if len(samples) < 4 and i % 37 == 0:
             samples.append({"nodes": nodes, "detail": detail, "outcome": pv["outcome"], "records": [r.get("record_type") for r in t1["records"]]})
+    exotic_payloads(rep, stats)
     rep.coverage.update({
         "evaluations": stats["observational_runs"] + stats["repro_fresh"] + stats["repro_same_object"] + stats["repro_after_history"],
         "distinct_nontrivial": stats["pipelines"],
@@ -208,6 +209,54 @@ def run(tier: str) -> int:
         "summaries of the harness' data types are content-based (TData.__repr__ shows the term)",
     ]
     return rep.finish()
+
+
+def exotic_payloads(rep, stats):
+    """Tracing reads (hashes, reprs, serialises) live payload objects: reading must not consume or change them."""
+    pipegen.setup()
+    from semantiva.pipeline import Pipeline, Payload
+    from semantiva.context_processors import ContextType
+    from semantiva.data_types import NoDataType
+    from semantiva.trace.drivers.jsonl import JsonlTraceDriver
+    from props.components import TData
+
+    def gen3():
+        yield from (1, 2, 3)
+    makers = {
+        "list-iterator": lambda: iter([1, 2, 3]),
+        "generator": gen3,
+        "map-object": lambda: map(int, ["1", "2", "3"]),
+        "zip-object": lambda: zip([1, 2], [3, 4]),
+        "reversed": lambda: reversed([1, 2, 3]),
+        "dict-view": lambda: {"a": 1, "b": 2}.keys(),
+        "set": lambda: {3, 1, 2},
+        "range": lambda: range(3),
+        "bytes": lambda: b"abc",
+    }
+    for kind, mk in makers.items():
+        for where in ("context", "data"):
+            def payload():
+                if where == "context":
+                    return [{"processor": "TSourceDef"}, {"processor": "TOpConsume"}], Payload(NoDataType(), ContextType({"chunks": mk()}))
+                return [{"processor": "TOpDrain"}], Payload(TData(mk()), ContextType({}))
+
+            def outcome(trace):
+                nodes, pl = payload()
+                try:
+                    pipe = Pipeline(nodes, trace=trace) if trace is not None else Pipeline(nodes)
+                    out = pipe.process(pl)
+                    return ("ok", json.dumps(pipegen.enc(out.data.data), default=str, sort_keys=True))
+                except BaseException as exc:  # noqa: BLE001
+                    return ("raises", type(exc).__name__, str(exc)[:120])
+            plain = outcome(None)
+            for detail in tracegen.DETAILS:
+                with rt.tempdir() as d:
+                    traced = outcome(JsonlTraceDriver(str(d / "t.jsonl"), detail=detail))
+                stats["exotic_payload_runs"] = stats.get("exotic_payload_runs", 0) + 1
+                if traced != plain:
+                    rep.add_violation(f"tracing-changes-result:{kind}:{where}:{detail}",
+                                      f"with a trace driver attached (detail={detail}) a run whose {where} carries a {kind} returns something else than the untraced run",
+                                      {"kind": kind, "where": where, "detail": detail, "untraced": plain, "traced": traced})
 
 
 def compare_traces(rep, pub, ra, rb, how, detail, has_sweep, already_normalised_b=False):
